@@ -31,6 +31,8 @@ def guard(fn, *a, **kw):
     """run fn; exceptions become part of the observation"""
     try:
         return ('ok', fn(*a, **kw))
+    except z3.Z3Exception as exc:
+        raise Unsupported("z3 error inside the code under test: %r" % (exc,))
     except Exception as exc:   # BaseException (PathAbort/Unsupported) passes through
         return ('exc', type(exc).__name__)
 
